@@ -471,6 +471,10 @@ func (c *checker) checkAlias(d *def, l *Lit, pos token.Pos, target string) {
 			return
 		}
 		c.out.ok("prov", d.name)
+		if c.only != nil && !c.only[target] { // named mode: follow the alias
+			c.only[target] = true
+			c.runDef(defByName(target))
+		}
 		return
 	}
 	c.out.fail("prov", c.pos(pos), d.name, "is expected to be initialised as a plain reference to "+target)
